@@ -161,26 +161,10 @@ func placedAnywhere(rep *ReplicaTrace, h uint64) bool {
 	return false
 }
 
-// pathClass guesses which coordinator path placed h on d, from the outside.
+// pathClass: first assignment (nobody reports the target) or a move.
 func pathClass(tr *CycleTrace, rep *ReplicaTrace, d int, h uint64) string {
 	if !reported(rep, h) {
 		return "first-assignment"
-	}
-	for i, s := range rep.Shards {
-		if i == d || s.Rep == nil {
-			continue
-		}
-		if _, ok := s.Rep[h]; ok {
-			if i > d {
-				// could be relief or scale-down; scale-down moves to lower ordinals only
-				rt := s.LastRT()
-				if rt != nil && ((tr.Opt.MaxHeadSeries != 0 && rt.HeadSeries >= tr.Opt.MaxHeadSeries) || rt.ProcessSeries >= tr.Opt.MaxProcessSeries) {
-					return "relief"
-				}
-				return "scale-down-or-relief"
-			}
-			return "relief"
-		}
 	}
 	return "move"
 }
@@ -295,7 +279,7 @@ func checkC04(tr *CycleTrace, rep *ReplicaTrace, r Reporter) {
 					for _, h := range sortedHashes(tr.Active) {
 						if e := tr.Explore[h]; e != nil && !reported(rep, h) && e.Health == "up" && oversized(o, e) {
 							if (o.MaxHeadSeries != 0 && e.Series > o.MaxHeadSeries) || e.Series > o.MaxProcessSeries {
-								kind = "series"
+								kind = "mixed"
 							}
 						}
 					}
@@ -321,14 +305,14 @@ func checkC05(tr *CycleTrace, rep *ReplicaTrace, r Reporter) {
 			// (a1) newly marked in-transfer => placed in normal state on an in-sync destination
 			if had && old.TargetState == "" && pt.TargetState == "in_transfer" {
 				ok := false
+				// the destination is an in-sync shard that holds h in normal state
+				// after the cycle (newly sent, or flipped back, or already a
+				// normal duplicate that now simply takes over)
 				for di, d := range rep.Shards {
-					if di == si || !d.InSync || d.Post == nil {
+					if di == si || !d.InSync {
 						continue
 					}
-					if _, dh := d.Rep[h]; dh {
-						continue
-					}
-					if t, in := d.Post[h]; in && t.TargetState == "" {
+					if st, in := d.Planned()[h]; in && st == "" {
 						ok = true
 					}
 				}
